@@ -647,6 +647,9 @@ class LessParser(object):
                                         | and media_query_expression
         """
         p[0] = list(p)[1:]
+        if len(p) > 3:
+            # the blank after the ')' of the preceding expression is not a token
+            p[0].insert(1, ' ')
 
     def p_media_query_expression(self, p):
         """ media_query_expression      : t_popen css_media_feature t_pclose
